@@ -340,6 +340,10 @@ def emit_fn(data, it, ckey, C, tlog, anchors_used, canary=False):
                     cfg["env"] += ("," if cfg["env"] else "") + ls[len("env"):].strip()
                 elif ls.startswith("returns"):
                     cfg["returns"] = ls[len("returns"):].strip()
+                elif ls.startswith("expose"):
+                    # the value the waited future resolved to is handed out of the (unit) handler as a GHOST result, so that the
+                    # handler's postcondition can say what the `map` closure made of it
+                    cfg["expose"] = True
                 elif ls and not ls.startswith("//"):
                     raise Undecided("bad line in `chain` section of %s: %s" % (ckey, ls))
             chain_cfg[int(kp[1])] = cfg
@@ -712,7 +716,13 @@ def emit_fn(data, it, ckey, C, tlog, anchors_used, canary=False):
             ps = [p_["text"] for p_ in m_["params"]]
             if len(ps) != 3:
                 raise Undecided("unsupported construct: `map` closure of chain %d of %s takes %d parameters" % (K, it["path"], len(ps)))
-            rep = "{ let %s = %s; let %s = &mut *self; let %s = &mut *%s; %s }" % (ps[0], call, ps[1], ps[2], ch["final_arg"], mtxt)
+            ghost_copy = ""
+            if cfg.get("expose"):
+                pn = re.match(r"^\s*(?:mut\s+)?([A-Za-z_][A-Za-z0-9_]*)", ps[0])
+                if not pn:
+                    raise Undecided("T20 expose: the first parameter of the `map` closure of chain %d of %s is not a plain name" % (K, it["path"]))
+                ghost_copy = " proof { vx_chain = Some(%s); }" % pn.group(1)
+            rep = "{ let %s = %s;%s let %s = &mut *self; let %s = &mut *%s; %s }" % (ps[0], call, ghost_copy, ps[1], ps[2], ch["final_arg"], mtxt)
         else:
             rep = "{ let _ = %s; }" % call
         # nothing else may have been planned inside the chain expression
@@ -730,9 +740,18 @@ def emit_fn(data, it, ckey, C, tlog, anchors_used, canary=False):
         # measured: this Verus drops the `ensures` of an `async fn` that returns `()` at its `.await` sites (a non-unit result keeps
         # them).  A unit handler that T20 made async therefore returns the one-value type `VxDone`: `-> (vx_done: VxDone)`, the body
         # becomes `{ { BODY }; VxDone::Done }`, every bare `return;` of the handler becomes `return VxDone::Done;`.
-        ed.insert(f["body_open"], " -> (vx_done: VxDone) ", order=-8)
+        exposed = [K_ for K_ in chain_cfg if chain_cfg[K_].get("expose")]
+        if len(exposed) > 1:
+            raise Undecided("T20 expose: more than one exposed chain in %s" % it["path"])
+        if exposed:
+            rty = chain_cfg[exposed[0]]["returns"]
+            done_ty, done_val = "VxOut<%s>" % rty, "VxOut { chain: Ghost(vx_chain) }"
+            ed.insert(f["body_open"] + 1, " let ghost mut vx_chain: Option<%s> = None; " % rty, order=-21)
+        else:
+            done_ty, done_val = "VxDone", "VxDone::Done"
+        ed.insert(f["body_open"], " -> (vx_done: %s) " % done_ty, order=-8)
         ed.insert(f["body_open"] + 1, " { ", order=-20)
-        ed.insert(f["body_close"], " }; VxDone::Done ", order=90)
+        ed.insert(f["body_close"], " }; %s " % done_val, order=90)
         nret = 0
         for r_ in f["returns"]:
             where = chain_of(r_)
@@ -742,7 +761,7 @@ def emit_fn(data, it, ckey, C, tlog, anchors_used, canary=False):
                 raise Undecided("unsupported construct: `return` inside the `map` closure of an actor future chain of %s" % it["path"])
             if data[r_["start"]:r_["end"]].strip() != b"return":
                 raise Undecided("unsupported construct: `return` with a value in the unit function %s" % it["path"])
-            ed.insert(r_["end"], " VxDone::Done", order=-3)
+            ed.insert(r_["end"], " " + done_val, order=-3)
             nret += 1
         tlog.append({"t": "T20", "item": it["path"], "note": "unit result of the now-async handler replaced by the one-value type VxDone (%d bare `return;` rewritten): Verus keeps the contract of an async fn only when its result is not `()`" % nret})
     if C.flag(ckey, "skip_body"):
